@@ -134,6 +134,13 @@ def judge_corr_cases(pid, corr_bad):
 
 
 _CONCERNS = {
+    # model = closed form is a theorem (C01: Spec.wl_update, C12: the pairwise-Gaussian formulas), so an implementation
+    # value that differs from the model's by more than 1e-9 differs from the closed form on the recorded input
+    "C01": ("mu at", "sigma at", "shape"),
+    "C12": ("predict_", "length"),
+    # totality: the model's arithmetic guards passed (its run is the checked-carrier run proved total on the domain)
+    # but the implementation raised an arithmetic exception on the same valid input
+    "C08": ("outcome: impl Arith",),
     # a difference in these observables IS a counterexample to the property (the theorem fixes the value exactly,
     # carrier-polymorphically, so the model's output is what the property demands)
     "C02": ("shape", "id/name", "passed object", "fields written", "result holds copies", "result mixes"),
@@ -141,6 +148,9 @@ _CONCERNS = {
     "C14": ("attribute writes", "model attributes after call", "model __dict__"),
     "C18": ("cmp", "lt", "le", "gt", "ge", "eq", "ne", "ordinal", "outcome"),
     "C20": ("crt", "mrating", "dcopy"),
+    # every shared operation of every class is tied to ONE model function: a class that departs from it departs
+    # from the other four (which agree with it), on the recorded input
+    "C19": ("cmp", "lt", "le", "gt", "ge", "eq", "ne", "ordinal", "crt", "mrating", "dcopy", "predict_", "length", "outcome"),
 }
 
 
